@@ -9,6 +9,7 @@ import (
 	"math/big"
 	"math/bits"
 	"sync"
+	"sync/atomic"
 	"time"
 
 	"github.com/Tom-Johnston/mamba/comb"
@@ -45,11 +46,9 @@ func checkCoeffU64(n, k uint64, c *big.Int) *Failure {
 		cls = "comb/CoeffUint64/k>31"
 	}
 	if p {
-		if msg != "calculation overflows uint64" {
-			return &Failure{Class: cls + "/unexpected-panic", What: fmt.Sprintf("CoeffUint64(%d,%d) panics: %s", n, k, msg), Kind: "coeff", Replay: cc}
-		}
+		// outside the must-return range any panic is the permitted refusal (the property fixes no message)
 		if mustReturn {
-			return &Failure{Class: cls + "/refuses-representable", What: fmt.Sprintf("CoeffUint64(%d,%d) panics although C(n,k)*min(k,n-k) = %s*%d fits uint64", n, k, c, kk), Kind: "coeff", Replay: cc}
+			return &Failure{Class: cls + "/refuses-representable", What: fmt.Sprintf("CoeffUint64(%d,%d) panics (%s) although C(n,k)*min(k,n-k) = %s*%d fits uint64", n, k, msg, c, kk), Kind: "coeff", Replay: cc}
 		}
 		return nil
 	}
@@ -362,12 +361,27 @@ func unrankOracle(r int, k int) (cmb []int, steps float64, overflows bool) {
 
 const unrankStepBudget = 2e7
 
+var unrankHangs [2]int64 // calls still running at their deadline, by failure class
+var unrankNotEvaluated int64
+
 // checkUnrank evaluates Unrank(r,k); hang-prone inputs run under a deadline in a goroutine.
 func checkUnrank(r, k int, deadline time.Duration) *Failure {
 	want, steps, overflows := unrankOracle(r, k)
 	rc := rankCase{Fn: "Unrank", R: r, K: k}
-	if !overflows && steps > unrankStepBudget {
-		return nil // correct but linear walk: outside the stated step bound, not evaluated
+	if steps > unrankStepBudget {
+		return nil // a linear walk longer than the stated step bound: not evaluated
+	}
+	hcls, hidx := "comb/Unrank/does-not-terminate", 0
+	if overflows {
+		hcls, hidx = "comb/Unrank/intermediate-product-overflows-int", 1
+	}
+	if atomic.LoadInt64(&unrankHangs[hidx]) >= 6 {
+		// each hanging call leaks a spinning goroutine: after six reported hangs of this kind stop feeding it
+		atomic.AddInt64(&unrankNotEvaluated, 1)
+		return nil
+	}
+	if min := 20*time.Second + time.Duration(steps)*time.Microsecond; deadline < min {
+		deadline = min // >= 100x the time the walk needs, so a loaded machine cannot trip it
 	}
 	type res struct {
 		got []int
@@ -384,11 +398,9 @@ func checkUnrank(r, k int, deadline time.Duration) *Failure {
 	select {
 	case out = <-ch:
 	case <-time.After(deadline):
-		cls := "comb/Unrank/does-not-terminate"
-		if overflows {
-			cls = "comb/Unrank/intermediate-product-overflows-int"
-		}
-		return &Failure{Class: cls, What: fmt.Sprintf("Unrank(%d,%d) still running after %v (expected %v; the correct walk is %.0f steps)", r, k, deadline, want, steps), Kind: "unrank", Replay: rc}
+		atomic.AddInt64(&unrankHangs[hidx], 1)
+		cls := hcls
+		return &Failure{Class: cls, What: fmt.Sprintf("Unrank(%d,%d) still running after %v (expected %v; the correct walk is %.0f steps)", r, k, deadline, want, steps), Kind: "unrank", Replay: rc, NoRepro: true}
 	}
 	cls := "comb/Unrank/wrong-result"
 	if overflows {
@@ -400,10 +412,28 @@ func checkUnrank(r, k int, deadline time.Duration) *Failure {
 	if !intsEq(out.got, want) {
 		return &Failure{Class: cls, What: fmt.Sprintf("Unrank(%d,%d) = %v want %v", r, k, out.got, want), Kind: "unrank", Replay: rc}
 	}
-	// Rank inverts it
+	// Rank inverts it - or refuses, which it may do only when one of its terms C(v,i+1) lies outside the range
+	// in which Coeff has to answer (C(v,i+1)*min(i+1,v-i-1) no longer fits an int)
 	var back int
-	if msg, p := try(func() { back = comb.Rank(out.got) }); p || back != r {
-		return &Failure{Class: "comb/Rank/does-not-invert-Unrank", What: fmt.Sprintf("Rank(Unrank(%d,%d)=%v) = %d %s", r, k, out.got, back, msg), Kind: "unrank", Replay: rc}
+	msg, p := try(func() { back = comb.Rank(out.got) })
+	if p {
+		mayRefuse := false
+		for i, v := range out.got {
+			kk := uint64(i + 1)
+			if uint64(v) >= kk && uint64(v)-kk < kk {
+				kk = uint64(v) - kk
+			}
+			if new(big.Int).Mul(bigBinom(uint64(v), uint64(i+1)), new(big.Int).SetUint64(kk)).Cmp(bigMaxInt) > 0 {
+				mayRefuse = true
+			}
+		}
+		if mayRefuse {
+			return nil
+		}
+		return &Failure{Class: "comb/Rank/refuses-representable", What: fmt.Sprintf("Rank(Unrank(%d,%d)=%v) panics (%s) although every term is in the range Coeff must answer", r, k, out.got, msg), Kind: "unrank", Replay: rc}
+	}
+	if back != r {
+		return &Failure{Class: "comb/Rank/does-not-invert-Unrank", What: fmt.Sprintf("Rank(Unrank(%d,%d)=%v) = %d", r, k, out.got, back), Kind: "unrank", Replay: rc}
 	}
 	return nil
 }
@@ -540,22 +570,46 @@ func c16Rank(c *Ctx) {
 			defer wg.Done()
 			_, steps, ov := unrankOracle(p.R, p.K)
 			c.Evals(1)
-			if !ov && steps > unrankStepBudget {
+			_ = ov
+			if steps > unrankStepBudget {
 				c.Count("unrank_probes_skipped_linear_walk_too_long", 1)
 				return
 			}
 			f := checkUnrank(p.R, p.K, 6*time.Second)
 			if f != nil {
-				// reproduce once more (each hanging attempt leaks a goroutine, so not five times)
-				if g := checkUnrank(p.R, p.K, 6*time.Second); g == nil || g.Class != f.Class {
-					c.HarnessError("non-reproducible Unrank failure for %v", p)
-					return
+				if !f.NoRepro {
+					if g := checkUnrank(p.R, p.K, 6*time.Second); g == nil || g.Class != f.Class {
+						c.HarnessError("non-reproducible Unrank failure for %v", p)
+						return
+					}
 				}
 				c.Fail(f)
 			}
 		}()
 	}
 	wg.Wait()
+	// the top of the int range: r = MaxInt>>s (and its neighbours) for every k whose walk stays inside the step bound
+	type rk struct{ r, k int }
+	var tops []rk
+	for k := 1; k <= 70; k++ {
+		for sh := 0; sh <= 40; sh++ {
+			base := math.MaxInt64 >> uint(sh)
+			for _, r := range []int{base, base - 1, base/3*2 + 1} {
+				if _, steps, _ := unrankOracle(r, k); steps <= unrankStepBudget {
+					tops = append(tops, rk{r, k})
+				}
+			}
+		}
+	}
+	c.Count("unrank_top_of_range_cases", int64(len(tops)))
+	c.parFor(int64(len(tops)), 8, func(lo, hi int64) {
+		for _, t := range tops[lo:hi] {
+			t := t
+			c.Check(func() *Failure { return checkUnrank(t.r, t.k, 0) })
+			c.Nontrivial(1)
+		}
+	})
+	c.Count("unrank_calls_not_evaluated_after_six_hangs", atomic.LoadInt64(&unrankNotEvaluated))
 	// Rank on subsets with large elements: exact, or the documented overflow panic - never a wrong value
 	var bigSets [][]int
 	for _, a := range []int{65535, 65536, 3037000498, 3037000499, 3037000500, 3037000501, 4294967295, 4294967296, 4294967297, 6074001000, 6074001001, 1 << 40} {
